@@ -512,12 +512,18 @@ func TestColdStart(t *testing.T) {
 	var f func(i int) string
 	var show func(i int) ([]string, string)
 	switch family {
-	case "parse", "parse-modular":
+	case "parse", "parse-modular", "parse-json":
 		var texts []string
 		paramTypes := []string{"int", "string", "bool", "uint", "double", "duration", "timestamp", "ipaddress", "any", "list<string>", "map<int>", "list<any>"}
 		for i := 0; i < workers; i++ {
 			g := &gen.DSLGen{R: r}
 			txt := g.Doc(family == "parse-modular").Render(&gen.Layout{R: r, Wild: i%2 == 0, Comments: i%3 == 0})
+			if family == "parse-json" {
+				// documents of very different sizes, the larger ones well beyond any small default buffer
+				for k := 0; k < (i%5)*(8+r.Intn(12)); k++ {
+					txt += fmt.Sprintf("\ntype bulk_%d_%d\n  relations\n    define r%d: [bulk_%d_%d] or r%d\n", i, k, k, i, k, k)
+				}
+			}
 			if family == "parse" {
 				// every document carries a condition with parameters of several types
 				txt += fmt.Sprintf("\ncondition cold_%d(p0: %s, p1: %s, p2: %s) {\n  p0 == p0\n}\n", i, paramTypes[i%len(paramTypes)], paramTypes[(i+5)%len(paramTypes)], paramTypes[r.Intn(len(paramTypes))])
@@ -529,6 +535,17 @@ func TestColdStart(t *testing.T) {
 				m, _, err := transformer.TransformModularDSLToProto(texts[i])
 				if err != nil {
 					return "ERR:" + err.Error()
+				}
+				return detKey(m)
+			}
+			if family == "parse-json" {
+				js, err := transformer.TransformDSLToJSON(texts[i])
+				if err != nil {
+					return "ERR:" + err.Error()
+				}
+				m, err := transformer.LoadJSONStringToProto(js)
+				if err != nil {
+					return "ERR-LOAD:" + err.Error()
 				}
 				return detKey(m)
 			}
